@@ -24,7 +24,7 @@ def run(ctx):
     ctx.explanation = ('Whole-string matching: the dispatcher / mount point / pool sources call only regex_match; booster::regex::match runs the separately compiled anchored program with '
                        'PCRE_ANCHORED (constant-evaluated from <pcre.h>) and the capture overload additionally demands the span [0,len); assign() builds that program as "(?:" pattern ")\\z". '
                        'First-match order, method-then-path, mount guards and group arity are CFG / table rules.')
-    P = load(ctx, ['src/url_dispatcher.cpp', 'src/mount_point.cpp', 'src/applications_pool.cpp', 'booster/lib/regex/src/pcre_regex.cpp'],
+    P = load(ctx, ['src/url_dispatcher.cpp', 'src/mount_point.cpp', 'src/applications_pool.cpp', 'booster/lib/regex/src/pcre_regex.cpp', 'src/url_mapper.cpp'],
              include_re='^/repo/(src|private|cppcms|booster/lib|booster/booster/regex_match\\.h|booster/booster/perl_regex\\.h)')
     R1 = ctx.rule('C20.R1', 'routing uses whole-string matching: regex_match only; anchored program + PCRE_ANCHORED + full span; "(?:...)\\z"')
     R2 = ctx.rule('C20.R2', 'the first registered rule that matches wins; rules are only ever appended')
@@ -284,6 +284,35 @@ def run(ctx):
         ok = len(mn) == 1 and any(model.strip_targs(r).endswith('mounted::select_') for r in f.subtree_refs(mn[0])) and any(model.strip_targs(r).endswith('option::match_') for r in f.subtree_refs(mn[0]))
         g = q.call_gate(f, lambda i: (f.bcallee(i) or '').endswith('option::matches'), True)
         ctx.check(ok and f.only_through(mn[0], g), R5, 'mounted::dispatch:passes-selected-group-after-match', 'mounted application gets a different group / runs without a match', f.where)
+
+    # ---------------- R6: URL generation passes same-named parameters straight through (no swapped roles)
+    R6 = ctx.rule('C20.R6', 'url_mapper: a parameter handed to a callee that has a parameter of the same name is passed in that parameter\'s position')
+    um = [f for f in P.fns.values() if f.file.endswith('/src/url_mapper.cpp')]
+    ctx.require(len(um) >= 10, 'C20.R6: url_mapper.cpp functions not found')
+    n6 = 0
+    for f in sorted(um, key=lambda g: g.id):
+        mine = {p['ref']: p['name'] for p in f.params if p['name']}
+        if len(mine) < 2:
+            continue
+        for i in f.calls():
+            g = P.fns.get(f.N(i).get('callee'))
+            if g is None:
+                continue
+            gnames = [p['name'] for p in g.params]
+            args = f.args(i)
+            if f.N(i)['k'] == 'CXXOperatorCallExpr' and f.N(i).get('rec'):
+                args = args[1:]
+            for j, a in enumerate(args[:len(gnames)]):
+                r = f.ref_of(a)
+                if r is None:
+                    s_ = f.strip(a)
+                    if f.N(s_)['k'] == 'UnaryOperator' and f.N(s_).get('op') in ('&', '*'):
+                        r = f.ref_of(f.N(s_)['ch'][0])
+                if r in mine and mine[r] in gnames and gnames.count(mine[r]) == 1:
+                    n6 += 1
+                    k = gnames.index(mine[r])
+                    ctx.check(k == j, R6, '%s->%s:%s' % (f.short, g.short, mine[r]), 'parameter %s is passed as %s (position %d instead of %d): roles swapped' % (mine[r], gnames[j], j, k), f.loc(i))
+    ctx.require(n6 >= 6 or ctx.violations, 'C20.R6: only %d pass-through arguments found in url_mapper.cpp' % n6)
 
     ctx.floor(R1, 16)
     ctx.floor(R2, 14)
